@@ -42,7 +42,7 @@ Definition subclass_make1 (ex : bool) (r : val) : val :=
   | VLeaf (LAny _) => VLeaf (LTyped c_type false)
   | VLeaf (LTyped _ _) | VLeaf (LNewType _ _) => VNode (TSubclass ex) [r]
   | VNode (TTypeVar _ _) _ | VNode (TGeneric _) _ | VNode (TSeq _ _) _
-  | VNode (TDictInc _ _) _ | VNode (TTypedDict _ _ _) _ | VNode (TCallable _) _ =>
+  | VNode (TDictInc _ _) _ | VNode (TTypedDict _ _ _) _ | VNode (TCallable _ _) _ =>
       VNode (TSubclass ex) [r]
   | _ => VLeaf (LAny any_inference)
   end.
@@ -65,7 +65,7 @@ Fixpoint subst_f (n : nat) (m : tvmap) (v : val) {struct v} : val :=
       match t with
       | TTypeVar tv _ => match lookup tv m with Some r => r | None => v end
       | TGeneric _ | TAnnot _ => VNode t (map (subst_f n m) kids)
-      | TCallable _ =>
+      | TCallable _ _ =>
           (* Signature.substitute_typevars returns self when nothing changed up to == *)
           let kids' := map (subst_f n m) kids in
           if forall2b (veq_f n) kids' kids then v else VNode t kids'
